@@ -87,7 +87,7 @@ def handleC46 (j : Json) : Except String Verdict := do
       if specApplies then
         let want := bundleSpec imgs svg
         if outSvg != want then
-          let hostile := imgs.any fun i => i.mime.contains lt
+          let hostile := imgs.any fun i => (mimeOut i.mime).contains lt
           return .specfalse (if hostile then "order-dependent:hostile-mime" else "bundled-bytes")
             s!"order {order.map short}: got {short outSvg} want {short want}"
         let wantErr := sortBytes ((imgs.filter (·.fails)).map (·.href))
